@@ -1,4 +1,8 @@
 /* the real compat_futex.c compiled under the shim, so that the ENOSYS fallback
- * (compat_futex_async: mb; while (load == val) poll) is visible to the scheduler */
+ * (compat_futex_async: mb; while (load == val) poll) is visible to the scheduler.
+ * Its poll() goes through vrt_poll_compat(): with --pollfaults N (per mille) the poll fails with EINTR (a signal arrived
+ * during the 10 ms sleep), logged as POLL_EINTR; compat_futex_async then returns -1 with poll's errno. */
 #include "vrt_shim.h"
+#undef poll
+#define poll(f, n, t)	vrt_poll_compat((void *)(f), n, t)
 #include "compat_futex.c"
